@@ -495,6 +495,14 @@ func (r *runner) runOne(idx int, b Behaviour, mk func(dir string, rng *rand.Rand
 					cancel()
 					return err
 				}
+			case "readinit":
+				// a read of the frontier rebuild (AppendOnlyTree.initCache walks the node table of the append-only tree; nothing
+				// else in ProcessBlock reads that table)
+				k := op.Fault.R
+				if k <= 0 {
+					k = 1
+				}
+				armAuthTables(kd.dbPath(), []string{"rht", "l1_info_rht"}, k)
 			case "read":
 				if op.Fault.Frac > 0 {
 					n, err := probeReads(kd, op)
@@ -533,7 +541,7 @@ func (r *runner) runOne(idx int, b Behaviour, mk func(dir string, rng *rand.Rand
 			}
 			ev := tr.M{"ev": "process", "num": op.Num, "evs": kd.describe(op), "fault": op.Fault.Kind, "at": real, "res": res,
 				"ms": time.Since(t0).Milliseconds(), "busy": op.Busy}
-			if fired, what := disarmAuth(); op.Fault.Kind == "read" {
+			if fired, what := disarmAuth(); op.Fault.Kind == "read" || op.Fault.Kind == "readinit" {
 				ev["fired"], ev["what"] = fired, what
 			}
 			if perr != nil {
